@@ -175,7 +175,7 @@ def shard(args) -> Acc:
 def run(tier: str, seed: int, workers: int):
     alpha = ALPHABET if tier == "quick" else ALPHABET_T
     cfgs = CONFIGS_Q if tier == "quick" else CONFIGS_T
-    depth = 5 if tier == "quick" else 7
+    depth = 5 if tier == "quick" else 6
     shards = []
     for max_age, init_len in cfgs:
         for e1 in alpha:
@@ -190,7 +190,7 @@ def run(tier: str, seed: int, workers: int):
         random.Random(seed).shuffle(shards)
     acc = pmap_acc(shard, shards, workers)
     meta = {
-        "rule": "every operation history of length 5 (quick) / 7 (thorough) + a final tick over {receive a sample stamped 0.25 / 0.5 / 1 / 2.5 "
+        "rule": "every operation history of length 5 (quick) / 6 (thorough) + a final tick over {receive a sample stamped 0.25 / 0.5 / 1 / 2.5 "
         "periods after the previous one - possibly after the next tick - valid / None / NaN; tick} containing at least one tick, for "
         "4 (quick) / 9 (thorough) configurations of max_data_age_in_periods x initial_buffer_len, resampling period 1 s; the recording "
         "resampling function captures the exact sequence it is handed; non-trivial = history with an invalid sample or a published "
